@@ -209,7 +209,14 @@ func c11Globals(res *lib.Result, tier string, root *lib.Rng) error {
 		r := root.Fork(uint64(6100000 + wi))
 		files, ng := genGlobalWorld(r)
 		dir := lib.ScratchDir(fmt.Sprintf("c11g%d", wi))
-		if err := lib.WriteWorkspace(dir, files); err != nil {
+		// every other world: b.lua starts with a byte-order mark on disk and is not open (its text is read from the
+		// file when the edit is put together); the mark is not part of the text positions refer to
+		bomClosed := wi%2 == 1
+		onDisk := map[string]string{"a.lua": files["a.lua"], "b.lua": files["b.lua"]}
+		if bomClosed {
+			onDisk["b.lua"] = "\xEF\xBB\xBF" + files["b.lua"]
+		}
+		if err := lib.WriteWorkspace(dir, onDisk); err != nil {
 			return err
 		}
 		sess, err := lib.StartSession(dir, lib.AllChecksOptions())
@@ -218,7 +225,9 @@ func c11Globals(res *lib.Result, tier string, root *lib.Rng) error {
 			return err
 		}
 		sess.DidOpen("a.lua", files["a.lua"])
-		sess.DidOpen("b.lua", files["b.lua"])
+		if !bomClosed {
+			sess.DidOpen("b.lua", files["b.lua"])
+		}
 		sess.Sync()
 		all := append(identTokens("a.lua", files["a.lua"]), identTokens("b.lua", files["b.lua"])...)
 		world := "-- a.lua\n" + files["a.lua"] + "-- b.lua\n" + files["b.lua"]
@@ -232,10 +241,13 @@ func c11Globals(res *lib.Result, tier string, root *lib.Rng) error {
 			}
 			sort.Strings(want)
 			for _, p := range all {
-				if p.name != name {
+				if p.name != name || (bomClosed && p.file == "b.lua") {
 					continue
 				}
 				caseText := fmt.Sprintf("rename at %s %d:%d (%s -> zz%d) in\n%s", p.file, p.line, p.col, name, g, world)
+				if bomClosed {
+					caseText += "(b.lua is not open and starts with a byte-order mark on disk)\n"
+				}
 				lib.Breadcrumb("C11 " + caseText)
 				ch, err := sess.Rename(p.file, p.line, p.col, fmt.Sprintf("zz%d", g))
 				if err != nil {
